@@ -327,6 +327,9 @@ def random_trace(seed, maxmax=2, ntasks=3, nclients=1, observer=True, extend=0, 
             idle += 1
         elif en:
             t, tmo = rnd.choice(en), False
+        elif any(x.idx >= 100 for x in tm):
+            # nothing can move any more: a client's timed wait (join(timeout)) expires before the run is called quiescent
+            t, tmo = [x for x in tm if x.idx >= 100][0], True
         else:
             end = "quiescent"
             break
@@ -548,6 +551,14 @@ def replay_behaviour(beh, limit=400):
                 break
         if diverged:
             break
+        if pc == "j2" and real and real[-1]["k"] == "join_read":
+            # join(timeout) reads the counter inside "with all_tasks_done": the release of that mutex belongs to the same
+            # spec step (it is invisible to the model), another client's timed join needs it
+            extra = 0
+            while t.state == "ready" and S.is_enabled(t) and extra < 6 and not any(
+                    e["thr"] == who and e["k"] == "other_unlock" for e in S.events[n0:]):
+                S.step(t, False)
+                extra += 1
         # compare the projection with the spec state after the step
         e = [x for x in S.events[n0:] if x["thr"] == who][-1]
         sp, im = st["st"], e["st"]
